@@ -6,6 +6,7 @@ cd "$(dirname "$0")"
 export CARGO_NET_OFFLINE=true
 mkdir -p build coq/theories/Gen evidence
 python3 tools/gen_kernels.py /repo coq/theories/Gen/Kernels.v coq/theories/Gen/Lz77Kernel.v || echo "gen_kernels: broken tie (reported by check C20)"
+python3 tools/gen_consts.py --shift-sites /repo coq/theories/Gen/Mp4ShiftSites.v || echo "gen_consts --shift-sites: broken tie (reported by check C01)"
 python3 tools/gen_consts.py --box-types /repo coq/theories/Gen/Mp4BoxTypes.v || echo "gen_consts --box-types: broken tie (reported by check C05)"
 python3 tools/gen_consts.py --webp-known /repo coq/theories/Gen/WebpKnown.v || echo "gen_consts --webp-known: broken tie (reported by check C14)"
 python3 tools/gen_consts.py --dispatch /repo coq/theories/Gen/Mp4Dispatch.v || echo "gen_consts --dispatch: broken tie (reported by check C05)"
